@@ -23,6 +23,7 @@ PROP = "C07"
 FINDING = {"SharedTables": "C07-F1", "HostOverridesLocal": "C07-F2"}
 NAME = {"type": "t", "absint": "f", "proc": "g"}
 SITES = ("M1", "P1", "I1", "P2", "M2", "E1")
+STUB = "mpi_f08"
 
 
 def as_built_dev():
@@ -73,7 +74,8 @@ def render(cls, decl, use_at, up, via3=False):
         m1 += ind(["type :: holder", "  integer :: h", "contains", f"  procedure, nopass :: bnd => {r}", f"  final :: {r}", "end type holder",
                    "interface gen", f"  module procedure {r}", "end interface gen"])
     m1 += ["contains"]
-    p1 = ["subroutine p1()"] + ind(unit_body("P1")) + ind(call) + ["contains"]
+    blk = ind(["blk: block"] + ind(decl_spec(cls, "B1")) + ["end block blk"]) if "B1" in decl else []
+    p1 = ["subroutine p1()"] + ind(unit_body("P1")) + ind(call) + blk + ["contains"]
     p1 += ind(["subroutine i1()"] + ind(unit_body("I1")) + ind(call) + ["end subroutine i1"])
     p1 += ind(procdecl("P1")) + ["end subroutine p1"]
     p2 = ["subroutine p2()"] + ind(unit_body("P2")) + ind(call)
@@ -98,8 +100,8 @@ def ident(obj):
         return "unresolved"
     par = getattr(obj, "parent", None)
     pn = getattr(par, "name", "?").lower()
-    if pn == "m3":
-        return "M2"            # the entity m2 re-exports
+    if pn in ("m3", STUB):
+        return "M2"            # the entity m2 re-exports / m2 under its stub name
     return pn.upper() if pn.upper() in SITES else pn
 
 
@@ -181,8 +183,11 @@ def evaluate(case):
     variants = [(False, False), (True, False)]
     if "M2" in case["decl"] and case["useAt"] != "none":
         variants.append((False, True))
+        variants.append((False, "stub"))        # m2 is called like a module FORD also knows as external (mpi_f08)
     for up, via3 in variants:
-        files = render(cls, set(case["decl"]), case["useAt"], up, via3)
+        files = render(cls, set(case["decl"]), case["useAt"], up, via3 is True)
+        if via3 == "stub":
+            files = {k: re.sub(r"\bm2\b", STUB, v) for k, v in files.items()}
         names = sorted(files)
         orders = [list(p) for p in itertools.permutations(names)] if case["tier"] == "thorough" else [names, names[::-1]]
         for order in orders:
@@ -214,7 +219,7 @@ def _parse_block(args):
 
 def generate(scratch, cls, dev, ck):
     mod, cfg = tlc.make_model(scratch, "Nesting", {"Class": cls, "Dev": frozenset()}, name=f"MCd_{cls}", spec="Spec",
-                              invariants=["ImplRefines", "InnermostWins", "SiblingInvisible", "UnresolvedStaysText"])
+                              invariants=["ImplRefines", "InnermostWins", "SiblingInvisible", "UnresolvedStaysText", "BlockLocalInvisible"])
     r0 = tlc.run(mod, cfg, workers=4, timeout=600)
     if not r0.ok:
         raise tlc.TLCFailure(f"Nesting[{cls}]: design-level invariant {r0.violated} violated")
@@ -273,7 +278,7 @@ def run(tier, seed, ck: Check):
 def replay_file(path, ck):
     rec = json.load(open(path))
     c = rec["case"]
-    files = rec.get("files") or render(c["cls"], set(c["decl"]), c["useAt"], c["up"], c.get("via3", False))
+    files = rec.get("files") or render(c["cls"], set(c["decl"]), c["useAt"], c["up"], c.get("via3", False) is True)
     obs = observe(c["cls"], files, c["order"])
     exp = rec["expected"]
     bad = [(k, v, obs.get(k)) for k, v in exp.items() if obs.get(k) != v]
